@@ -14,6 +14,9 @@ func init() { Scenarios["SMOKE"] = smoke }
 // boot starts one proxy against the world's nodes and waits until it serves.
 func boot(e *Env, cfg world.Config) (*world.World, *world.ProxyInst) {
 	cfg.KeepLog = e.Keep
+	if e.StepCap > 0 && e.StepCap < cfg.MaxSteps {
+		cfg.MaxSteps = e.StepCap
+	}
 	w := world.New(cfg, e.S, e.N, e.C)
 	e.W = w
 	var contact []string
